@@ -37,7 +37,7 @@ var g03Prefixes = []g03Prefix{
 
 var g03Closers = []string{"", ")", "))"}
 
-var g03Seps = []string{" ", "\t", "\n", "\v", "\f", "\r", "\xa0", "/**/", "/*x*/", "  ", " \t", "\n/**/"}
+var g03Seps = []string{" ", "\t", "\n", "\v", "\f", "\r", "\xa0", "/**/", "/*x*/", "  ", " \t", "\n/**/", "\x00", "\x00 "}
 
 type g03Payload struct {
 	family string
